@@ -5,6 +5,8 @@ mod big; mod ctx; mod c01; mod c01e; mod c02; mod c03; mod c04; mod c11; mod c05
 mod c19;
 mod c20;
 mod wrappers;
+mod many;
+mod galplain;
 
 fn main() {
     let a: Vec<String> = std::env::args().collect();
